@@ -155,3 +155,50 @@ fn uv_e2_l2_d2() {
     assert!(v == want);
     kani::cover!(true, "uv_e2_l2_d2 reached its end");
 }
+
+fn anym<const L: usize>() -> SquareMatrix<Zt> {
+    let mut m = SquareMatrix::new_zeros_from_num(&Zt(0), L);
+    let mut i = 0;
+    while i < L { let mut j = 0; while j < L { m[(i, j)] = anyz(); j += 1; } i += 1; }
+    m
+}
+/// C09 cross-check at general (bounded) sizes: the same definitions as uv_e2_l2_d2 with every unordered pair i<j of loops.
+fn uv_check<const E: usize, const L: usize, const D: usize>() {
+    let x: [Zt; E] = core::array::from_fn(|_| anyz());
+    let rows: [[isize; L]; E] = core::array::from_fn(|_| core::array::from_fn(|_| { let s: i8 = kani::any(); kani::assume(s >= -1 && s <= 1); s as isize }));
+    let sig: Vec<Vec<isize>> = rows.iter().map(|r| r.to_vec()).collect();
+    let ps: [Vector<Zt, D>; E] = core::array::from_fn(|_| anyv::<D>());
+    let shifts: Vec<&Vector<Zt, D>> = ps.iter().collect();
+    let masses: [Zt; E] = core::array::from_fn(|_| anyz());
+    let li = anym::<L>();
+    let u = compute_u_vectors(&x[..], &sig, &shifts);
+    assert!(u.len() == L);
+    let mut l = 0;
+    while l < L {
+        let mut c = 0;
+        while c < D {
+            let mut want = Zt(0);
+            let mut e = 0;
+            while e < E { want = want + ps[e][c] * (Zt(rows[e][l] as i8) * x[e]); e += 1; }
+            assert!(u[l][c] == want);
+            c += 1;
+        }
+        l += 1;
+    }
+    let v = compute_v_polynomial(&x[..], &u, &li, &shifts, &masses[..]);
+    let dot = |a: &Vector<Zt, D>, b: &Vector<Zt, D>| { let mut s = Zt(0); let mut c = 0; while c < D { s = s + a[c] * b[c]; c += 1; } s };
+    let mut want = Zt(0);
+    let mut e = 0;
+    while e < E { want = want + (masses[e] * masses[e] + dot(&ps[e], &ps[e])) * x[e]; e += 1; }
+    let mut i = 0;
+    while i < L {
+        want = want - dot(&u[i], &u[i]) * li[(i, i)];
+        let mut j = i + 1;
+        while j < L { want = want - Zt(2) * dot(&u[i], &u[j]) * li[(i, j)]; j += 1; }
+        i += 1;
+    }
+    assert!(v == want);
+    kani::cover!(true, "uv_check reached its end");
+}
+#[kani::proof] #[kani::unwind(11)] fn uv_e1_l3_d1() { uv_check::<1, 3, 1>() }
+#[kani::proof] #[kani::unwind(11)] fn uv_e2_l3_d2() { uv_check::<2, 3, 2>() }
